@@ -140,8 +140,9 @@ func runKillRace(r *h.Run, prop string) {
 			if !ok || (proc != "host" && proc != "plugin") || n <= mark[key] {
 				continue
 			}
-			if proc == "plugin" {
-				// The plugin's own statements are not enumerated. (Tried for C18:
+			if proc == "plugin" && prop != "C20" {
+				// The plugin's own statements are not enumerated - except for C20,
+				// whose oracle (no panic, no hang) does not look at left-over files. (Tried for C18:
 				// the only thing it shows is that a plugin PROCESS that exits while
 				// one of its goroutines is in the middle of creating a brokered
 				// listener leaves that socket file - the goroutine never runs
@@ -184,7 +185,12 @@ func runKillRace(r *h.Run, prop string) {
 		return
 	}
 	if prop == "C20" {
-		return // no panic, no hang: judged by the worker and by the bounded operations above
+		// no hang (bounded operations above), no host panic (worker), and the
+		// plugin did not die of a panic of its own either
+		if plug != nil && strings.HasPrefix(plug.DiedOf, "panic") {
+			r.Violate("plugin-panic", ctx, "the plugin process died of "+plug.DiedOf+"\n"+firstN(r.HLog.String(), 3000))
+		}
+		return
 	}
 	// C18
 	if plug != nil && plug.GotKill {
